@@ -659,7 +659,9 @@ pub fn cmd_run(a: &[String]) -> i32 {
             unreached.push(p.to_string());
         }
     }
-    if !unreached.is_empty() && res.violations.is_empty() {
+    // reach is only enforced for full-size batches (a reduced VERIF_RUNS is a developer's run)
+    let full_size = runs >= if tier == "quick" { prop.quick_runs } else { prop.thorough_runs };
+    if !unreached.is_empty() && res.violations.is_empty() && full_size {
         eprintln!("HARNESS ERROR: reach probes at zero: {:?}", unreached);
         if exit == 0 {
             exit = 2;
